@@ -6,6 +6,10 @@ props = [json.loads(l) for l in open(os.path.join(VERIF, 'properties.jsonl'))]
 ids = [p['id'] for p in props]
 
 CHECKS = {
+ 'C06': dict(engine='E1 enum', category='exploration', design_ref='3 C06',
+   technique='bounded-exhaustive enumeration: independent schema compilation, validation of every Spyne-emitted document, lxml-vs-soft verdict pairs over the facet lattice',
+   text='(a) For every program of the level A / level B universe, two schema-specific programs (three namespaces with cross-namespace fields and bases, attributes with use, enum, XmlData) and every facet program, the published schema documents are serialised and compiled by lxml independently of Spyne. (b) Every request produced by Spyne\'s own client serialiser and every response of its server for every conformant alphabet value, for XmlDocument, Soap11 and Soap12, is validated against that schema. (c) For every value of the C05 facet lattice (boundaries, all 8-/16-bit values, occurrence counts, ill-formed literals) in four positions the server is run with validator=lxml and with validator=soft and the accept/reject verdicts must coincide.',
+   note='Facets soft validation does not implement (total/fraction digits) are not sent in (c); xml_choice_group is not generated (not expressible in the program spec).'),
  'C18': dict(engine='E1 enum', category='exploration', design_ref='3 C18',
    technique='bounded-exhaustive differential enumeration: NullServer vs three wire paths over signatures x values x call styles',
    text='Every atom of the type alphabet in the positions argument / field / nested field / array / repeated member / several return values / out_bare / bare (complex argument passed field-wise), arities 0..3 x 0..3 return values, generator results, Ignored returns, Faults and a non-Fault exception; every conformant alphabet value; every call positional, by keyword and mixed. The value NullServer hands back (or the fault it raises) must equal what the reference decoders read from the XmlDocument, Soap11 and JsonDocument responses of the very same call, and the function must have seen the same arguments.',
